@@ -41,6 +41,11 @@ CHECKS.update({
                   'complete sorted list and the singular candidate is gated by constraints_compliant; constraints() of Tool/Base/Frame/Parallelogram returns the inner limits. Filter semantics itself is C07.', design='6/C08'),
 })
 CHECKS['C05']['text'] = CHECKS['C05']['text'].replace('is covered structurally by the continuation harness when built', 'is decided in the continuation harness (singular candidate: J4 and J6 move by the same amount; candidate gated by the unshifted-pose check)')
+CHECKS.update({
+ 'C17': dict(text='Frame::frame executed from MIR on the images of an arbitrary non-collinear triple (onto parametrisation: origin, Euler frame, l>0, u, w>0) under an arbitrary rigid motion (Euler + translation): '
+                  'norms are normalised modulo the unit-circle relations so the Ok path is the only path, and the 12 result components equal the motion as polynomial identities; exactly collinear source/target are never accepted, '
+                  'a pair distance off by more than 5 mm gives NotIsometry; translation() and forward_transformed() (oracle inner robot) checked by term identities.', design='6/C17'),
+})
 PENDING = {}
 NA = {}
 def main():
@@ -57,7 +62,7 @@ def main():
         na.append(dict(property_id=p['id'], reason=NA.get(p['id'], 'check not built yet in this round (planned, see DESIGN.md section 6); not claimed until its harness runs')))
     m = dict(version=1, setup_cmd='python3-vt -m checks.setup',
              hooks=dict(guard='rs_opw_kinematics_verif', enable="RUSTFLAGS='--cfg rs_opw_kinematics_verif' (set by checks/common.py when it builds /verif/replay against /repo)",
-                        baseline_off_cmd='cd /repo && cargo test --workspace --no-fail-fast --offline', source_commits=[], add_only=True),
+                        baseline_off_cmd='cd /repo && cargo test --workspace --no-fail-fast --offline', source_commits=['6d33efb'], add_only=True),
              engines=[dict(name='mirsmt', path='/verif/mirsmt', serves_properties=sorted(CHECKS), kind_free_text='symbolic executor for rustc MIR (-Zunpretty=mir of the current tree) with state merging, producing real-arithmetic SMT obligations for z3'),
                       dict(name='replay', path='/verif/replay', serves_properties=sorted(CHECKS), kind_free_text='Rust binary linking the current /repo tree; re-runs solver counterexamples natively against oracles written from the property text')],
              checks=checks, not_applicable=na,
